@@ -244,6 +244,13 @@ class OutputFiles:
             paths = ("-",)
         for path in paths:
             assert path is not None
+        if "fileformat" not in kwargs:
+            # The writers below get file-like objects, whose names are not always
+            # available (compressed files, in-memory buffers used with multiple cores),
+            # so the format implied by the output file name is determined here.
+            fileformat = self._fileformat_from_path(paths[0])
+            if fileformat == "fasta" or (fileformat == "fastq" and self._qualities):
+                kwargs["fileformat"] = fileformat
         binary_files = []
         for path in paths:
             binary_file = self._file_opener.xopen(path, "wb")
@@ -258,6 +265,20 @@ class OutputFiles:
             writer = self._file_opener.dnaio_open(*binary_files, mode="w", **kwargs)
             self._writers.append(writer)
             return writer
+
+    @staticmethod
+    def _fileformat_from_path(path: str) -> Optional[str]:
+        """Return "fasta" or "fastq" if the file name (ignoring a compression suffix) tells it"""
+        name = str(path).lower()
+        for ext in (".gz", ".xz", ".bz2", ".zst"):
+            if name.endswith(ext):
+                name = name[: -len(ext)]
+                break
+        if name.endswith((".fasta", ".fa", ".fna")):
+            return "fasta"
+        if name.endswith((".fastq", ".fq")):
+            return "fastq"
+        return None
 
     def open_stdout_record_writer(
         self, interleaved: bool = False, force_fasta: bool = False
